@@ -28,8 +28,14 @@
    yields a proper outcome.  `host:*`, `timeout`, `syntax`, `badvalue:*` and
    improper errors are accepted by no action: Reject lists them (@@BAD@@) and
    moves on.  For the forms the outcome class is also compared with the
-   prediction of FormsOps (@@DRIFT@@, never BAD).                            *)
-EXTENDS FormsOps, TLC, Json, IOUtils
+   prediction of FormsOps (@@DRIFT@@, never BAD).
+
+   Round 2: an event with form = "graph" is a program of FormsGraph.tla; it
+   carries g = [kinds, steps, obs].  The heap is re-derived here from the
+   recorded steps (HeapOf) and the outcome class compared with PredG (drift
+   only, and only where the model commits itself: not for "any").  The
+   verdict is the same grammar of outcomes as for every other event.         *)
+EXTENDS FormsOps, FormsGraphOps, TLC, Json, IOUtils
 
 Trace == ndJsonDeserialize(IOEnv.TRACE_FILE)
 VARIABLE l
@@ -49,7 +55,13 @@ Allowed(e)  == ValueOK(e) \/ ErrorOK(e) \/ ScaledOK(e)
 \* prediction drift, forms only
 Drift(e) == /\ e.form # "" /\ IsForm(e.form) /\ Proper(e.out)
             /\ PredictTags(e.form, e.tags) # Class(e.out)
+\* the same for the programs of FormsGraph
+GraphPred(e) == PredG(HeapOf(e.g.kinds, e.g.steps, Len(e.g.steps)), e.g.obs)
+GraphDrift(e) == /\ e.form = "graph" /\ Proper(e.out)
+                 /\ GraphPred(e) \in {"value", "error"}
+                 /\ GraphPred(e) # Class(e.out)
 Note == /\ (Drift(Ev) => PrintT("@@DRIFT@@" \o ToJson([l |-> l, pred |-> PredictTags(Ev.form, Ev.tags)])))
+        /\ (GraphDrift(Ev) => PrintT("@@DRIFT@@" \o ToJson([l |-> l, pred |-> GraphPred(Ev)])))
         /\ (l = Len(Trace) => PrintT("@@DONE@@" \o ToJson([n |-> l])))
 
 Init == l = 1
